@@ -34,7 +34,7 @@
 #include "cmi_slist.h"
 #include "cmi_verif.h"
 
-#define MAXP 6
+#define MAXP 12
 #define MAXI 12
 #define MAXR 2
 #define MAXUEV 4
